@@ -22,7 +22,7 @@ def plan(tier, seed):
         floors={"e.p. capture": 500, "castling": 1500, "capture-promotion": 1000,
                 "rook captured on home square (right lost)": 800, "take-back across special move": 3000,
                 ">=6 queens of one colour": 1500, ">=6 black queens": 1000, "transposition hit": 4000,
-                "null-move edit": 10000} if quick else
+                "null-move edit": 10000, "start with half-move clock >= 100": 1500} if quick else
                {"e.p. capture": 3000, "castling": 6000, "capture-promotion": 6000,
                 "rook captured on home square (right lost)": 3000, "take-back across special move": 20000,
                 ">=6 queens of one colour": 6000, ">=6 black queens": 2000, "transposition hit": 20000,
